@@ -200,7 +200,11 @@ func (b Bytes) ParseUint() (uint, error) {
 		if !IsDigit(c) {
 			return 0, errs.ErrInvalidByteInParseUint.F(string(c), b)
 		}
-		u = u*10 + uint(c-'0')
+		d := uint(c - '0')
+		if u > (math.MaxUint-d)/10 {
+			return 0, errs.ErrTooMuchDataForInt.F()
+		}
+		u = u*10 + d
 	}
 	return u, nil
 }
